@@ -365,3 +365,27 @@ def c09(c):
                       "vectors require); a refactoring with another valid evaluation order would differ only inside a 2^-40 band",
                       "the closeness of the sampler's exact output law to the ideal Gaussian (Renyi argument) is not derived; the histogram test "
                       "has the usual power limits", "a stream that never accepts makes the specified algorithm loop too: totality = no panic on any prefix"]
+
+
+def babai_key(ev, v):
+    d = v[4] if len(v) > 4 else []
+    failed = sorted(d[0]["#set"]) if d and isinstance(d[0], dict) and "#set" in d[0] else []
+    return {"ev": "babai", "n": ev.get("n"), "tag": ev.get("tag"), "failed": failed,
+            "input_sha3": runner_sha([abs(int(x)) % 256 for x in (ev.get("f", []) + ev.get("g", []) + ev.get("F", []) + ev.get("G", []))])}
+
+
+def c17(c):
+    thorough = c.tier == "thorough"
+    c.cov["rule"] = ("MC_Babai: the residue-based evaluation of the postconditions equals schoolbook arithmetic over Z on a toy ring (multiples and "
+                     "non-multiples). Trace_Babai: babai_reduce_i32 and babai_reduce_bigint on the same (f, g, F, G) for every n in {2..1024}, "
+                     "(F,G) = (F0,G0) + k (f,g) with |k| from 0 up to what the 2^24 bound allows, zero / extreme / real-key inputs; TLC decides "
+                     "agreement, F-F' = k f and G-G' = k g for a reconstructed integer k, invariance of f G - g F, idempotence. "
+                     "distinct_nontrivial = distinct (n, family) classes")
+    mc = McOutcome()
+    model_check(mc, [dict(module="MC_Babai", cfg="MC_Babai", workers=8, timeout=1800)])
+    c.add_mc(mc)
+    drive("c17", ["--tier", c.tier, "--seed", c.seed, "--out", c.work, "--shards", 14], timeout=3600)
+    to = validate_traces("Trace_Babai", traces_in(c.work, "babai"), parallel=PAR, timeout=7200)
+    c.add_traces(to, keyfn=babai_key)
+    c.assumptions += ["the reduction's internal floating-point quotient is not specified -- only its postconditions",
+                      "when f is not invertible modulo 18433 or 40961 the multiple k is not reconstructed (branch '-kskipped'); the invariant still is"]
